@@ -15,7 +15,7 @@ func checkC05(c *Check) {
 	c.Explanation = "JSON validity and key agreement of generated code, decided per generated type over every corpus (not by writing any JSON): (1) well-formedness — each WriteJSONOpt is interpreted over an abstract JSON automaton (stack of open containers × grammar phase): constant fragments are tokenised, basictl.JSONWrite*/nested WriteJSON* calls count as one value, JSONAddCommaIfNeeded adds a comma unless the previous byte opens a container, and the backup/rollback idiom restores the saved state; on every path no token is out of place and every success return leaves exactly one complete value; (2) data discipline — the only non-constant bytes reaching the buffer come from basictl.JSONWrite* or a nested writer; (3) key tables — the set of keys the writer can emit equals the set of `case` labels of the type's ReadJSONGeneral, and for each key the writer's operand (field) is the field the reader's case fills, with dual codecs (JSONWriteX ↔ Json2ReadX, nested writer ↔ nested reader of the same family). String escaping, base64 fallback and number spelling are C34's tables."
 	c.NotCovered = "equality of TL1/TL2 encodings after a JSON round trip for all values (needs execution); strconv/easyjson behaviour (trusted)"
 	c.Assumptions = []string{"union index is within range (set only by generated accessors and readers: C43, C02)", "JSONWriteContext.Short is a write-only migration mode (a …Long union is written under its non-Long sibling's type names; readers have no such mode): names emitted under it are outside the round trip"}
-	writers, keysChecked, unions := 0, 0, 0
+	writers, keysChecked, unions, dictKeys := 0, 0, 0, 0
 	withCorpora(c, true, func(g *genCtx) {
 		for _, fam := range g.families() {
 			roles := g.byFam[fam]
@@ -32,11 +32,18 @@ func checkC05(c *Check) {
 				p := e.problems[0]
 				c.Ob("json-writer-well-formed", name, false, p.Pos, fmt.Sprintf("%s (%d problem(s) in this writer)", p.Text, len(e.problems)))
 			}
+			// (2b) a value writer in key position must always produce a JSON string
+			for _, kw := range e.keyWriters {
+				dictKeys++
+				c.Ob("json-dict-key/key-writer-always-a-string", "Builtin Dict*WriteJSONOpt: "+kw.Text+" as object key", false, kw.Pos, name+": "+kw.Text+" stands in object-key position, but for input that is not valid UTF-8 it writes the object {\"base64\":…}, which is not a legal key: the text is not valid JSON")
+			}
 			// (3) key tables
 			rd := roles["ReadJSONGeneral"]
 			if rd == nil {
 				continue
 			}
+			// (3a) a key read without unescaping may only select a case (struct field names); as stored data it must be unescaped
+			g.rawKeyUses(c, name, rd)
 			if wn := g.jsonUnionWriterNames(w); wn != nil {
 				rn := g.jsonUnionReaderNames(rd)
 				for _, idx := range sortedKeys(wn) {
@@ -96,6 +103,7 @@ func checkC05(c *Check) {
 		}
 	})
 	c.Set("json_writers", writers)
+	c.Set("json_dict_key_writers", dictKeys)
 	c.Set("json_union_variants", unions)
 	c.Floor("json-union-type-names", 20)
 	c.Floor("json-writer-well-formed", 100)
@@ -321,4 +329,45 @@ func (g *genCtx) zeroSizeTL1(from *FuncInfo, fam string) bool {
 	}
 	w, _ := g.wire(roles["WriteTL1"], tl1WriteCfg, "w")
 	return len(realOps(w)) == 0
+}
+
+// rawKeyUses: results of Lexer.UnsafeFieldName(true) (no unescaping) are used only as a switch tag or in
+// error messages; any other use (stored as a dictionary key) needs the unescaping form.
+func (g *genCtx) rawKeyUses(c *Check, name string, fi *FuncInfo) {
+	ir := g.ir(fi)
+	txt := blockText(ir.Body)
+	// nested use inside another expression: data use
+	if strings.Contains(txt, ".UnsafeFieldName(true)") {
+		c.Ob("json-dict-key/stored-key-is-unescaped", name, false, posStr(g.co.Fset, fi.Decl.Pos()), "a key read with UnsafeFieldName(true) (escape sequences kept) is stored as data; the writer escapes keys with JSONWriteString, so the reader must unescape")
+		return
+	}
+	walkBlock(ir.Body, nil, func(n Node, _ []Guard) {
+		cn, ok := n.(*CallN)
+		if !ok || cn.Fn == nil || cn.Fn.Name() != "UnsafeFieldName" || len(cn.Args) != 1 || len(cn.Results) != 1 {
+			return
+		}
+		l := cn.Results[0]
+		raw := cn.Args[0] == "true"
+		dataUse := false
+		walkBlock(ir.Body, nil, func(m Node, _ []Guard) {
+			switch m := m.(type) {
+			case *AssignN:
+				if strings.Contains(strings.Join(m.LHS, ","), "["+l+"]") || strings.Contains(strings.Join(m.RHS, ","), l) {
+					dataUse = true
+				}
+			case *CallN:
+				if m == cn || m.Fn != nil && strings.HasPrefix(m.Fn.Name(), "Error") {
+					return
+				}
+				for _, a := range m.Args {
+					if strings.Contains(a, l) {
+						dataUse = true
+					}
+				}
+			}
+		})
+		if dataUse {
+			c.Ob("json-dict-key/stored-key-is-unescaped", name, !raw, posStr(g.co.Fset, cn.Pos), fmt.Sprintf("the key read by UnsafeFieldName(%s) is stored as data: it must be the unescaping form (false), dual to the escaping key writer", cn.Args[0]))
+		}
+	})
 }
